@@ -47,7 +47,7 @@ def build():
         ])
         o = lambda *n: [os.path.join(out, x) for x in n]
         vc._parallel([
-            ["g++", "-fsanitize=address,undefined", os.path.join(obj, "addr_h.o")] + o("misc.o", "common.o", "ntopmax.o") + [os.path.join(obj, "stubs.o"), "-lrapidcheck", "-o", os.path.join(out, "addr_h")],
+            ["g++", "-fsanitize=address,undefined", os.path.join(obj, "addr_h.o")] + o("misc.o", "common.o", "ntopmax.o") + [os.path.join(obj, "stubs.o"), "-lrapidcheck", "-levent", "-lm", "-o", os.path.join(out, "addr_h")],
             ["clang++", "-fsanitize=fuzzer,address,undefined", os.path.join(obj, "addr_fz.o")] + o("misc_fz.o", "common_fz.o", "ntopmax.o") + [os.path.join(obj, "stubs.o"), "-o", os.path.join(out, "addr_fuzz")],
         ])
     d = vc.cached_build("addr-bin", vc.repo_sources() + [hsrc, stub, nmax], (CXX, SAN_MEM), b_bin)
